@@ -93,7 +93,7 @@ func (fr *Frame) call(site ssa.Instruction, c *ssa.CallCommon, st *State) []*Ter
 		if fc := vc.eng.db.funcs[key]; fc != nil {
 			sig := c.Signature()
 			names := []string{"self"}
-			tys := []types.Type{types.Typ[types.Int]}
+			tys := []types.Type{fr.funcValueOwnerType(c.Value)}
 			all := []*Term{fr.funcValueOwner(c.Value)}
 			for i := 0; i < sig.Params().Len(); i++ {
 				names = append(names, fmt.Sprintf("p%d", i))
@@ -117,6 +117,16 @@ func (fr *Frame) funcValueKey(v ssa.Value) string {
 		}
 	}
 	return ""
+}
+
+// funcValueOwnerType: static type of the object whose field holds the function value (self in funcfield contracts).
+func (fr *Frame) funcValueOwnerType(v ssa.Value) types.Type {
+	if u, ok := v.(*ssa.UnOp); ok {
+		if fa, ok := u.X.(*ssa.FieldAddr); ok {
+			return fa.X.Type()
+		}
+	}
+	return types.Typ[types.Int]
 }
 
 func (fr *Frame) funcValueOwner(v ssa.Value) *Term {
